@@ -297,10 +297,11 @@ impl Kademlia {
                                 "connection established to peer but failed to open substream",
                             );
 
-                            if let PeerAction::SendFindNode(query_id) = action {
-                                self.engine.register_send_failure(query_id, peer);
-                                self.engine.register_response_failure(query_id, peer);
-                            }
+                            // Every kind of action is owed an outcome: the send phases of
+                            // `PUT_VALUE`/`ADD_PROVIDER` wait for this peer as well.
+                            let query_id = action.query_id();
+                            self.engine.register_send_failure(query_id, peer);
+                            self.engine.register_response_failure(query_id, peer);
                         }
                     }
                 }
@@ -919,6 +920,15 @@ impl Kademlia {
                 let key = record.key.clone();
                 let message: Bytes = KademliaMessage::put_value(record);
 
+                // Start tracking before contacting the peers, so that a peer that cannot be
+                // reached at all is registered as failed instead of staying pending forever.
+                self.engine.start_put_record_to_found_nodes_requests_tracking(
+                    query,
+                    key.clone(),
+                    peers.iter().map(|peer| peer.peer).collect(),
+                    quorum,
+                );
+
                 for peer in &peers {
                     if let Err(error) = self.open_substream_or_dial(
                         peer.peer,
@@ -933,15 +943,10 @@ impl Kademlia {
                             ?error,
                             "failed to put record to peer",
                         );
+
+                        self.engine.register_send_failure(query, peer.peer);
                     }
                 }
-
-                self.engine.start_put_record_to_found_nodes_requests_tracking(
-                    query,
-                    key,
-                    peers.into_iter().map(|peer| peer.peer).collect(),
-                    quorum,
-                );
 
                 Ok(())
             }
@@ -973,6 +978,15 @@ impl Kademlia {
 
                 let message = KademliaMessage::add_provider(provided_key.clone(), provider);
 
+                // Start tracking before contacting the peers, so that a peer that cannot be
+                // reached at all is registered as failed instead of staying pending forever.
+                self.engine.start_add_provider_to_found_nodes_requests_tracking(
+                    query,
+                    provided_key.clone(),
+                    peers.iter().map(|peer| peer.peer).collect(),
+                    quorum,
+                );
+
                 for peer in &peers {
                     if let Err(error) = self.open_substream_or_dial(
                         peer.peer,
@@ -985,16 +999,11 @@ impl Kademlia {
                             ?provided_key,
                             ?error,
                             "failed to add provider record to peer",
-                        )
+                        );
+
+                        self.engine.register_send_failure(query, peer.peer);
                     }
                 }
-
-                self.engine.start_add_provider_to_found_nodes_requests_tracking(
-                    query,
-                    provided_key,
-                    peers.into_iter().map(|peer| peer.peer).collect(),
-                    quorum,
-                );
 
                 Ok(())
             }
